@@ -282,7 +282,9 @@ fn timing_part(out: &mut Out, thorough: bool, rng: &mut Rng) {
         let mut c = RunCfg::new(layered(layers, width, 3, seed, props.clone()), strat, t);
         let (k, names) = rng.pick(&fws).clone();
         c.finish_when = FwSpec { kind: k.into(), names: names.into_iter().filter(|&i| i < props.len() || rng.chance(1, 2)).collect() };
-        c.target_state_count = match rng.below(3) { 0 => None, 1 => Some(1 + rng.below(4000)), _ => Some(100_000 + rng.below(100_000)) };
+        // incl. targets that fall between `state_count` and `state_count + pending jobs` at some block boundary of the
+        // ~11 000-state, ~33 000-transition model (a check that stops on an over-estimate of the generated states)
+        c.target_state_count = match rng.below(4) { 0 => None, 1 => Some(1 + rng.below(4000)), 2 => Some(4000 + rng.below(26000)), _ => Some(100_000 + rng.below(100_000)) };
         c.target_max_depth = match rng.below(3) { 0 | 1 => None, _ => Some(2 + rng.below(12)) };
         if strat == "sim" {
             // a simulation needs some reason to stop
